@@ -183,7 +183,8 @@ func newObservation[C Client](req message.Message, observationHandler *Handler[C
 }
 
 func (o *Observation[C]) handle(r *pool.Message) {
-	if o.waitForResponse.CompareAndSwap(true, false) {
+	first := o.waitForResponse.CompareAndSwap(true, false)
+	if first {
 		select {
 		case o.respObservationChan <- respObservationMessage{
 			code:         r.Code(),
@@ -195,6 +196,13 @@ func (o *Observation[C]) handle(r *pool.Message) {
 	}
 	if o.wantBeNotified(r) {
 		o.observeFunc(r)
+	}
+	if !first && (r.Code() >= codes.BadRequest || !r.HasOption(message.Observe)) {
+		// An error response or a response without the Observe option that follows the registration tells the
+		// client that the server has removed it from the list of observers (RFC 7641 3.2, 4.2): the observation
+		// has ended, nothing more will come for it. (The answer to the registration itself is judged by
+		// NewObservation.)
+		o.cleanUp()
 	}
 }
 
